@@ -52,6 +52,9 @@ mutate dec-read-pos decoder_buffer.go '\tn = copy(p, b.Data[b.R:])\n\tb.R += n' 
 mutate lcp-decrement suffix/lcp.go '\t\tif l > 0 {\n\t\t\tl--\n\t\t}\n' '\t\tif l > 1 {\n\t\t\tl--\n\t\t}\n' suffix._lcp
 mutate gsap-prefer-smaller gsap.go 'if m2 > m || (m2 == m && f2 > f) {' 'if m2 < m || (m2 == m && f2 > f) {' lz.gsap.Parse
 mutate gsap-ignore-upper gsap.go '\t\tif ok2 {' '\t\tif ok2 && !ok1 {' lz.gsap.Parse
+# --- margin bytes in the hash tables (C13; re-introduces the defect fixed by 8677525) ---
+mutate dh-unmasked-value hash.go 'h1.table[hashValue(x, h1.shift)] = hashEntry{pos: pos, value: uint32(x)}' 'h1.table[hashValue(x, h1.shift)] = hashEntry{pos: pos, value: uint32(y)}' lz.doubleHashDictionary.processSegment
+mutate hp-unmasked-value hp.go '\t\tv := uint32(x)\n' '\t\tv := uint32(y)\n' lz.hashParser.Parse
 # --- contracts weakened on purpose: lemmas must depend on their hypotheses ---
 mutate lemma-potential-hyp verif_contracts.go 'requires potLit: forall x int :: 0 <= x && x < n ==> trig(g_dp[x+1], g_dp[x]) && g_dp[x+1] <= g_dp[x] + costOf(1, 0)' 'requires potLit: true' lz.lemmaPotential
 mutate lemma-pairs-hyp suffix/verif_contracts.go 'requires leftmax: forall e int :: 0 <= e && e < g_En ==> g_Ea[e] == 0 || int(lcp[g_Ea[e]]) < g_Em[e]' 'requires leftmax: true' suffix.lemmaPairs
@@ -59,6 +62,6 @@ mutate lemma-roundtrip-hyp verif_contracts.go 'requires prior: forall y int :: 0
 mutate sorted-clause-dropped suffix/verif_contracts.go 'ensures [C09] sorted: sortedAdj(t, sa)\n' '' suffix.LCP
 # --- the clean tree must verify (no failing obligation in the functions touched above) ---
 git -C $WT checkout -q -- .
-out=$($V/bin/lzvc verify -repo $WT -timeout 20s lz.bitset.support lz.bitset.memberBefore lz.bitset.insert lz.bitset.memberAfter lz.optSuffixArrayParser.shortestPath lz.XZCost lz.DecoderBuffer.WriteMatch lz.DecoderBuffer.Read suffix._lcp suffix.LCP lz.gsap.Parse lz.lemmaPotential suffix.lemmaPairs lz.lemmaRoundTrip 2>&1 | grep -vE "$KNOWN")
+out=$($V/bin/lzvc verify -repo $WT -timeout 20s lz.bitset.support lz.bitset.memberBefore lz.bitset.insert lz.bitset.memberAfter lz.optSuffixArrayParser.shortestPath lz.XZCost lz.DecoderBuffer.WriteMatch lz.DecoderBuffer.Read suffix._lcp suffix.LCP lz.gsap.Parse lz.lemmaPotential suffix.lemmaPairs lz.lemmaRoundTrip lz.doubleHashDictionary.processSegment lz.hashParser.Parse 2>&1 | grep -vE "$KNOWN")
 if echo "$out" | grep -qE "^  FAIL|^ABORT"; then echo "SELFTEST clean tree: FAILS"; echo "$out" | grep -E "^  FAIL|^ABORT" | head; fail=1; else echo "SELFTEST clean tree: verifies"; fi
 exit $fail
